@@ -72,7 +72,7 @@ def isSpaceGroupLatPar(spacegroup, a, b, c, alpha, beta, gamma):
         return True
 
     def check_monoclinic():
-        rv = (alpha == gamma == 90) or (alpha == beta == 90)
+        rv = (alpha == gamma == 90) or (alpha == beta == 90) or (beta == gamma == 90)
         return rv
 
     def check_orthorhombic():
